@@ -50,6 +50,13 @@ def _unique(i, args, kw, node, fr):
     n = to_z3(a.shape[0], Int)
     k, k2, j = z3.Int("k!u"), z3.Int("k2!u"), z3.Int("j!u")
     if a.ndim == 1 and kw.get("axis") in (None, 0):
+        # unique is a function of its input: the same array value (same data term and length) gives the same result
+        ckey = ("unique1", a.data.get_id(), n.get_id(), bool(ret_index))
+        cache = i.ctx.ghost.setdefault("_unique_cache", {})
+        if ckey in cache:
+            u0, first0 = cache[ckey]
+            i.ctx.ghost["last_unique"] = u0
+            return (Arr(u0.shape, u0.data, u0.dtype, fresh=True), Arr((u0.shape[0],), first0, "int")) if ret_index else Arr(u0.shape, u0.data, u0.dtype, fresh=True)
         es = a.elem_sort
         u = new_arr(i, (i.ctx.fresh("nuniq", Int),), es, "uniq", a.dtype)
         m = u.shape[0]
@@ -72,6 +79,8 @@ def _unique(i, args, kw, node, fr):
             for f in str_order_axioms():
                 A(f)
         out = [u]
+        i.ctx.ghost["last_unique"] = u
+        cache[ckey] = (u, first)
         if ret_index:
             out.append(Arr((m,), first, "int"))
         if ret_counts:
